@@ -249,6 +249,7 @@ theorem releasable_mono {L : LogicData} {mw mc : Nat} {b : Branch} {h : BranchH}
   have hwi : ∀ p, p ∈ h.windex → p ∈ (h.addNode L b nd).windex := fun p hp => windex_addNode.2 (Or.inl hp)
   cases r with
   | closure => simp [releasable] at hr
+  | ident => simp [releasable] at hr
   | table k =>
     simp only [releasable, snoc_get_lt hi] at hr ⊢
     split at hr
